@@ -25,16 +25,16 @@ package auth
 //@ ensures r0 == fmatch(r, a)
 
 // client id / user name / remote address patterns: a deterministic function of pattern and value
-// verif:spec rmatch(string, string) bool
+// verif:spec rsmatch(string, string) bool
 // verif:func auth.RString.Matches
-//@ axiom r0 == rmatch(r, a)
+//@ axiom r0 == rsmatch(r, a)
 //@ ensures empty-and-star-match-everything: (r == "" || r == "*") ==> r0
 //@ ensures equal-matches: a == r ==> r0
 
 // ---- C18: connect decisions ----
 // verif:def un(cl *mqtt.Client) string = str(cl.Properties.Username)
 // verif:def userKnown(l *Ledger, cl *mqtt.Client, pk packets.Packet) bool = l.Users != nil && has(l.Users, un(cl)) && l.Users[un(cl)].Password != "" && l.Users[un(cl)].Password == str(pk.Connect.Password)
-// verif:def authM(l *Ledger, cl *mqtt.Client, pk packets.Packet, k int) bool = rmatch(l.Auth[k].Client, cl.ID) && rmatch(l.Auth[k].Username, un(cl)) && rmatch(l.Auth[k].Password, str(pk.Connect.Password)) && rmatch(l.Auth[k].Remote, cl.Net.Remote)
+// verif:def authM(l *Ledger, cl *mqtt.Client, pk packets.Packet, k int) bool = rsmatch(l.Auth[k].Client, cl.ID) && rsmatch(l.Auth[k].Username, un(cl)) && rsmatch(l.Auth[k].Password, str(pk.Connect.Password)) && rsmatch(l.Auth[k].Remote, cl.Net.Remote)
 // verif:func auth.Ledger.AuthOk
 //@ requires cl != nil
 //@ ensures C18-users-own-entry-takes-precedence: userKnown(l, cl, pk) ==> n == 0 && (ok <==> !l.Users[un(cl)].Disallow)
@@ -48,7 +48,7 @@ package auth
 // verif:def userHit(l *Ledger, cl *mqtt.Client) bool = l.Users != nil && has(l.Users, un(cl)) && len(l.Users[un(cl)].ACL) > 0
 // verif:def uacl(l *Ledger, cl *mqtt.Client) Filters = l.Users[un(cl)].ACL
 // verif:def userMatch(l *Ledger, cl *mqtt.Client, topic string) bool = userHit(l, cl) && (exists f RString :: has(uacl(l, cl), f) && fmatch(f, topic))
-// verif:def aclM(l *Ledger, cl *mqtt.Client, k int) bool = rmatch(l.ACL[k].Client, cl.ID) && rmatch(l.ACL[k].Username, un(cl)) && rmatch(l.ACL[k].Remote, cl.Net.Remote)
+// verif:def aclM(l *Ledger, cl *mqtt.Client, k int) bool = rsmatch(l.ACL[k].Client, cl.ID) && rsmatch(l.ACL[k].Username, un(cl)) && rsmatch(l.ACL[k].Remote, cl.Net.Remote)
 // verif:def applies(l *Ledger, cl *mqtt.Client, topic string, k int) bool = aclM(l, cl, k) && (len(l.ACL[k].Filters) == 0 || (exists f RString :: has(l.ACL[k].Filters, f) && fmatch(f, topic)))
 // verif:def rgrants(l *Ledger, topic string, write bool, k int) bool = len(l.ACL[k].Filters) == 0 || (exists f RString :: has(l.ACL[k].Filters, f) && grants(l.ACL[k].Filters[f], write) && fmatch(f, topic))
 // verif:func auth.Ledger.ACLOk
